@@ -138,6 +138,7 @@ type obs = {
   flags : (string * string) list;
   calls : (string * string) list;
   raw_ents : string;
+  raw_st : string;
 }
 
 let parse_entry (e : n) (s : string) : entry =
@@ -174,7 +175,7 @@ let parse_obs (e : n) (line : string) : obs =
         (Some g, addrs)
       | _ -> failwith ("bad struct: " ^ st) in
     { res; st = cache; cap = capn; dropped = List.map n (nonempty (split ',' dropped)); hashes = n hashes; visits; graph;
-      addr_of_ktok = addrs; flags = parse_flags flags; calls = parse_flags calls; raw_ents = ents }
+      addr_of_ktok = addrs; flags = parse_flags flags; calls = parse_flags calls; raw_ents = ents; raw_st = st }
   | l -> failwith (Printf.sprintf "bad OB line (%d fields): %s" (List.length l) line)
 
 (* ---------- tallies ---------- *)
@@ -288,11 +289,19 @@ let () =
                  tally "fault" true;
                  let mres = res_string ~kind ~dbg o in
                  chk "res" (mres = post.res);
-                 chk "keys" (keys_string s' = keys_string post.st);
+                 let kl (c : cache) = List.map (fun (en : entry) -> s_of_n en.ek.kid) c.ents in
+                 let km = kl s' and ki = kl post.st in
+                 chk "keyset" (List.sort compare km = List.sort compare ki);
+                 chk "order" (List.filter (fun x -> List.mem x ki) km = List.filter (fun x -> List.mem x km) ki);
                  chk "ents" (noes_string s' = noes_string post.st);
                  chk "sizes" (sizes_string s' = sizes_string post.st);
                  chk "cur" (Z.equal (z_of_n s'.cur) (z_of_n post.st.cur));
                  chk "max" (Z.equal (z_of_n s'.maxs) (z_of_n post.st.maxs));
+                 (* a rejected insertion must leave every observable bit as it was, pointer structure included *)
+                 (match o with OInsTooLarge _ | OTryTooLarge _ | OTryWouldEject _ | OTryOccupied _ ->
+                    chk "atomic" (pre.raw_ents = post.raw_ents && pre.raw_st = post.raw_st && Z.equal (z_of_n pre.st.cur) (z_of_n post.st.cur)
+                                  && Z.equal (z_of_n pre.st.maxs) (z_of_n post.st.maxs) && Z.equal (z_of_n pre.cap) (z_of_n post.cap) && post.dropped = [])
+                  | _ -> ());
                  chk "cap" (Z.equal (z_of_n (capacity s'.tb)) (z_of_n post.cap) && Z.equal (z_of_n s'.tb.nb) (z_of_n post.st.tb.nb));
                  chk "drops" (sorted_n evs.e_dropped = sorted_n post.dropped);
                  (* eviction order: the key tokens of the evicted entries, in the order their drops were logged *)
@@ -339,7 +348,8 @@ let () =
                | None -> chk "fault" false
                | Some (s', evs) ->
                  chk "res" (String.length post.res >= 6 && String.sub post.res 0 6 = "clone:");
-                 chk "keys" (keys_string s' = keys_string post.st);
+                 chk "keyset" (List.sort compare (split ',' (keys_string s')) = List.sort compare (split ',' (keys_string post.st)));
+                 chk "order" (keys_string s' = keys_string post.st);
                  chk "ents" (noes_string s' = noes_string post.st);
                  chk "sizes" (sizes_string s' = sizes_string post.st);
                  chk "cur" (Z.equal (z_of_n s'.cur) (z_of_n post.st.cur));
